@@ -169,14 +169,14 @@ func init() {
 	}
 	checks["C10"] = &CheckDef{
 		Pkgs:    []string{"./control"},
-		Harness: []string{"control:Verif_C10_mirror", "control:Verif_C10_cache_history"},
+		Harness: []string{"control:Verif_C10_mirror", "control:Verif_C10_mirror_long", "control:Verif_C10_cache_history"},
 		MaxIter: 600,
 		Level:   "other",
 		LevelText: "Histories of cache insertions, replacements and removals are run from an empty tracker through the real controlPlaneCore.BatchUpdateDomainRouting / BatchRemoveDomainRouting (buildDomainRoutingOwnerSnapshot, syncOwner, desiredBitmapForKeyLocked, applyOwnerSnapshotLocked) and, in a second harness, through the DNS cache itself (production insert path with the control plane's callbacks, RemoveDnsRespCache, RemoveDnsRespCacheFamily, staleDnsSideEffects / orphanedDnsSideEffects); the batches the tracker emits are folded into a shadow kernel map. After every step the solver shows, for symbolic bitmaps, that the table holds for each address exactly the union of the bitmaps of the live entries listing it, that unspecified addresses never enter and that no other key exists.",
 		LevelNote: "Trusted: go/ssa, executor, z3, the union specification in the harness. BpfMapBatchUpdate/BpfMapBatchDelete are replaced by shadow-map updates (the kernel hash map itself is outside); bitmaps are symbolic in word 0 (and word 31 in the thorough tier), other words zero; two owners (or three cache keys, two of them scopes of one name) over two addresses (one IPv4, one IPv6) plus 0.0.0.0 / ::. Map iteration follows insertion order.",
 		Technique: techniqueText,
 		Explanation: "Bounded symbolic execution of the domain routing tracker and the cache paths feeding it, against a shadow kernel map.",
-		Bounds:  map[string]string{"quick": "tracker: 2 arbitrary steps (update with any address subset and any bitmap, or removal, on either owner) + 1 removal-or-simple-update; cache: 2 arbitrary steps over 3 keys (insert with any address subset / exact removal / family removal) + 1 removal", "thorough": "one more arbitrary step in the tracker harness, arbitrary last step in the cache harness, bitmap word 31 symbolic"},
+		Bounds:  map[string]string{"quick": "mirror_long: 4 steps over 2 owners, step alphabet {remove, list address 0, list address 1} with arbitrary bitmap word 0 (first step fixed by symmetry); tracker: 2 arbitrary steps (update with any address subset and any bitmap, or removal, on either owner) + 1 removal-or-simple-update; cache: 2 arbitrary steps over 3 keys (insert with any address subset / exact removal / family removal) + 1 removal", "thorough": "one more arbitrary step in the tracker harness, arbitrary last step in the cache harness, bitmap word 31 symbolic"},
 		Outside: []string{"kernel hash map implementation", "async BPF update worker and its rate limiting (NeedsBpfUpdate)", "janitor / LRU eviction paths (same delete callback)"},
 		Assumptions: []string{"batch operations succeed", "domain matcher returns an arbitrary bitmap per name"},
 		QuickBudget: 8 * time.Minute, ThoroughBudget: 60 * time.Minute,
